@@ -225,7 +225,8 @@ def handle : Drv.Handler
     let c : Case := { g, props := ps, cfg, finish := fin }
     let d := if strat == "dfs" then Discipline.dfs else if strat == "bfs" then Discipline.bfs else Discipline.ondemand
     let P := c.params
-    let s := runSingle P d (g.fuel ps.length)
+    -- `fresh` = an on-demand checker that was never told to do anything: the state right after spawn
+    let s := if strat == "fresh" then Checker.init P.M P.props P.key else runSingle P d (g.fuel ps.length)
     let M := g.toSys
     -- `discoveries()` rebuilds each stored fingerprint path with `Path::from_fingerprints` (states are their own keys)
     let view : Assert.View Nat Nat :=
